@@ -95,7 +95,7 @@ class TokenStream:
     @property
     def remaining_part_of_current_line_is_empty(self) -> bool:
         remaining = self.remaining_part_of_current_line
-        return not remaining or remaining.isspace()
+        return not remaining.strip(self._lexer.whitespace)
 
     def consume_remaining_part_of_current_line_as_string(self) -> str:
         """
@@ -166,7 +166,7 @@ class TokenStream:
                 return ret_val
             else:
                 ret_val = self._source[self._start_pos:new_line_pos]
-                if ret_val and not ret_val.isspace():
+                if ret_val.strip(self._lexer.whitespace):
                     self._source_io.seek(new_line_pos + additional)
                     self._lexer = self._new_lexer()
                     self._head_syntax_error_description = None
